@@ -236,7 +236,13 @@ def run_property(prop, tier):
     samples = []
     dropped = collections.Counter()
     vac = 0
+    skipped = []
     for o in outs:
+        if o["error"] and o["error"][0] == "not-applicable":
+            # an unbounded proof script whose loop summaries do not fit the current code shape: skipped, never an alarm
+            skipped.append(f"{o['script']}: {o['error'][1]}")
+            print("SKIPPED", o["script"], "::", str(o["error"][1])[:200])
+            continue
         if o["error"]:
             errors.append((o["script"], o["error"]))
         for k, v in (o["dropped"] or {}).items():
@@ -367,7 +373,7 @@ def run_property(prop, tier):
             "scripts": [{"script": o["script"], "paths": o["paths"], "obligations": len(o["results"]),
                          "wall_s": round(o["total_wall"], 2)} for o in outs],
             "extraction_dropped": dict(dropped), "vacuity_checks": vac,
-            "known_findings": known_lines, "undecided": undecided[:20],
+            "known_findings": known_lines, "undecided": undecided[:20], "scripts_not_applicable_to_code_shape": skipped,
             "samples": samples or [{"obligation": outs[0]["results"][0]["name"] if outs and outs[0]["results"] else "none"}],
             "explanation": META.EXPLANATION.get(prop, ""),
             "bounded_standins": bsummary,
